@@ -157,7 +157,7 @@ int main(int argc, char **argv)
     vx::Args args(argc, argv);
     R.init(args);
     bool thorough = R.tier == "thorough";
-    unsigned D = thorough ? 7 : 5, S = thorough ? 8 : 6;
+    unsigned D = thorough ? 9 : 5, S = thorough ? 12 : 6;
     return vx::run_contained([&] {
         n_eval = n_nt = 0;
         uint64_t item = 0;
